@@ -356,7 +356,10 @@ func genProgram(rng *vlib.Rand, fl genFlags) (string, []string, []string, map[st
 	b.WriteString(hid() + "counter c" + as("c_total") + "\n")
 	key := "k"
 	if fl.qkeys && rng.Chance(50) {
-		key = "\"k 1\""
+		// keys that are not identifiers of the lexer (a space, a leading digit, a
+		// dash, letter-like and number-like runes that are not letters or decimal
+		// digits: superscripts, fractions, roman numerals, combining marks)
+		key = "\"" + vlib.Pick(rng, []string{"k 1", "k 1", "9k", "a-b", "m²", "x½", "stageⅣ", "é́", "k.v", "naïve"}) + "\""
 		g.feats["quoted-key"] = true
 	} else if fl.qkeys && rng.Chance(50) {
 		// a key spelled like a builtin or a keyword has to stay quoted
